@@ -98,17 +98,19 @@ theorem wipe_ignores_coredata (d : Dir) (nd : Dict) :
 same coredata, same introspection data, and on success the same cmd_line.txt. -/
 theorem wipe_eq_replay (d : Dir) (f : Dict) (hf : d.cmdline = some f) (hn : (f.map Prod.fst).Nodup) :
     let w := step d (.wipe [])
-    let r := step (Dir.fresh d.top d.sub) (.setup f)
+    let r := step d.emptied (.setup f)
     w.2 = r.2 ∧ w.1.core = r.1.core ∧ w.1.intro = r.1.intro ∧ (w.2.isOk = true → w.1.cmdline = r.1.cmdline) := by
   have hm : mergeCmd f [] = f := rfl
-  simp only [step, Dir.fresh, hf, firstInvocation, userOpts, hm, mergeCmd_self f hn]
-  cases interpret true newCore d.top d.sub f with
-  | error e => simp [commitFirst, Out.isOk]
-  | ok r =>
-    simp only [commitFirst]
-    split
-    · simp [Out.isOk]
-    · split <;> simp [Out.isOk]
+  simp only [step, Dir.emptied, hf, firstInvocation, userOpts, hm, mergeCmd_self f hn, interpret]
+  cases interpProg true newCore.initialized d.top d.sub d.pdoTop d.pdoSub d.spcall f newCore.store with
+  | mk r s' =>
+    cases r with
+    | error e => simp [commitFirst, Out.isOk]
+    | ok r =>
+      simp only [commitFirst]
+      split
+      · simp [Out.isOk]
+      · split <;> simp [Out.isOk]
 
 /-! ## re-reading an option file (one entry of `update_project_options`, arbitrary store) -/
 
